@@ -82,7 +82,21 @@ func domEpochs(env *Env) error {
 		var extra []epochstypes.EpochInfo
 		for i := 0; i < nExtra; i++ {
 			e := epochstypes.EpochInfo{Identifier: fmt.Sprintf("x%d", i), Duration: durChoices[rng.Intn(len(durChoices))]}
-			switch rng.Intn(5) {
+			switch rng.Intn(7) {
+			case 5, 6: // mid-count, with a start time that does NOT line up with the current epoch's
+				// start (an identifier exported and re-imported with its StartTime left unset, or a
+				// schedule that drifted): only CurrentEpochStartTime + Duration decides the next tick
+				e.EpochCountingStarted = true
+				e.CurrentEpoch = int64(2 + rng.Intn(50))
+				e.CurrentEpochStartTime = cfg.InitTime.Add(-time.Duration(rng.Intn(3)) * e.Duration / 2)
+				e.CurrentEpochStartHeight = int64(rng.Intn(5))
+				switch rng.Intn(3) {
+				case 0: // unset: AddEpochInfo fills in the import block's time
+				case 1:
+					e.StartTime = cfg.InitTime.Add(-time.Duration(1+rng.Intn(1000)) * time.Second)
+				case 2:
+					e.StartTime = e.CurrentEpochStartTime.Add(-time.Duration(e.CurrentEpoch+int64(rng.Intn(5))) * e.Duration)
+				}
 			case 0: // zero start time => genesis time
 			case 1:
 				e.StartTime = cfg.InitTime.Add(-time.Duration(rng.Intn(1000)) * time.Second)
